@@ -136,6 +136,15 @@ func num(v float64) Expr {
 
 func str(s string) Expr { return &Str{V: []byte(s)} }
 
+// single truncates a possibly multi-valued expression to one value where the argument count matters.
+func single(e Expr) Expr {
+	switch e.(type) {
+	case *Call, *Meth, *Varargs:
+		return &Paren{E: e}
+	}
+	return e
+}
+
 func call(f string, args ...Expr) Expr {
 	for i := 0; i < len(f); i++ {
 		if f[i] == '.' {
@@ -843,7 +852,7 @@ func (g *Gen) tableOp(d int) []Stmt {
 	switch g.R.Pick(25, 20, 15, 20, 20) {
 	case 0:
 		g.use("table.insert")
-		return []Stmt{&CallS{E: call("table.insert", g.ref(s), g.exprInt(d))}}
+		return []Stmt{&CallS{E: call("table.insert", g.ref(s), single(g.exprInt(d)))}}
 	case 1:
 		g.use("table.remove")
 		return []Stmt{emit(call("table.remove", g.ref(s)))}
